@@ -291,7 +291,7 @@ def _wrapper_returns_call(ut):
         return False
     for v, s in fl.returns:
         for leaf in A.strip_ifexp(v):
-            if not (isinstance(leaf, ast.Call) and canon(leaf.func) == "func"):
+            if not (isinstance(leaf, ast.Call) and canon(leaf.func) in ("func", ut.name)):   # (the wrapper re-entered with the cache file name ends in the same call)
                 return False
     return True
 
